@@ -94,6 +94,18 @@ CHECKS = {
           "choices, not solver variables (the property quantifies over finitely many built-in classes); the solver decides the switch space. "
           "Known finding (recorded, not repaired): ExceptionGroup/BaseExceptionGroup cannot be rebuilt by load() on Python >= 3.11."),
     technique="symbolic execution of the Python AST with symbolic configuration switches + z3; replay on CPython"),
+ "C08": dict(
+    category="other", design_ref="DESIGN.md section 4 (C08)",
+    text=("Symbolic execution of the real _dispatch_request/_dispatch/_seq_request_callback/_async_request/_send/_box/_unbox together with the "
+          "real brine encoder: the request's sequence number, the handler's integer/text results (unbounded Int: the solver reaches results the "
+          "interpreter cannot render, i.e. replies that fail to encode), the two propagate switches and the incoming response number are solver "
+          "variables; handler outcomes (values, references, four exception kinds, undecodable arguments, unknown handler, wrong arity) are "
+          "exhaustive choices. Assertions are over the frame ledger of an in-memory channel: exactly one response bearing the request's own number, "
+          "handler at most once, nothing escapes but the configured local propagations; a response reaches exactly the callback registered under "
+          "its number; callbacks are registered before sending and removed on failure."),
+    note=("Trusted: z3, interpreter, stub contracts of C04. One request/response at a time (histories and threads are C10-C13). The pinned tree's "
+          "defect (unencodable reply tears the connection down) was found here and repaired in /repo."),
+    technique="symbolic execution of the Python AST incl. the real serializer + z3 (LIA); replay on CPython"),
 }
 
 NOT_YET = {}
